@@ -290,8 +290,8 @@ void conf_exp_aliases(hostlist_t hl)
         alias_t *a;
 
         a = list_find_first(conf_aliases, (ListFindF) _alias_match, host);
-        if (a) {
-            hostlist_delete_host(hl, host);
+        /* expand only what could be deleted: else the reset below never ends */
+        if (a && hostlist_delete_host(hl, host) > 0) {
             hostlist_push_list(newhosts, a->hl);
             hostlist_iterator_reset(itr); /* not sure of itr position after
                                              insertion/deletion so reset */
